@@ -42,6 +42,36 @@ class _Canon(ast.NodeTransformer):
             return ast.copy_location(ast.Assign(targets=[node.target], value=node.value, type_comment=None), node)
         return node
 
+    def visit_For(self, node):
+        # C9  `for x in (A, B): S(x)`  ->  `S(A); S(B)`  for a display of at most 8 plain names / dotted names (a loop over
+        # classes or enum members), x a name the body neither re-binds nor deletes, no break / continue / else
+        self.generic_visit(node)
+        it = node.iter
+        if not (isinstance(it, (ast.Tuple, ast.List)) and 1 <= len(it.elts) <= 8 and isinstance(node.target, ast.Name) and not node.orelse):
+            return node
+        if not all(isinstance(e, (ast.Name, ast.Attribute)) and all(isinstance(x, (ast.Name, ast.Attribute)) for x in ast.walk(e) if not isinstance(x, ast.expr_context)) for e in it.elts):
+            return node
+        tgt = node.target.id
+        for s in node.body:
+            for x in ast.walk(s):
+                if isinstance(x, (ast.Break, ast.Continue)) or (isinstance(x, ast.Name) and x.id == tgt and not isinstance(x.ctx, ast.Load)) \
+                        or isinstance(x, (ast.FunctionDef, ast.Lambda, ast.ClassDef)):
+                    return node
+        import copy
+
+        class _S(ast.NodeTransformer):
+            def __init__(self, e):
+                self.e = e
+
+            def visit_Name(self, n):
+                return copy.deepcopy(self.e) if n.id == tgt and isinstance(n.ctx, ast.Load) else n
+
+        out = []
+        for e in it.elts:
+            for s in node.body:
+                out.append(ast.copy_location(_S(e).visit(copy.deepcopy(s)), s))
+        return out
+
     def visit_UnaryOp(self, node):
         self.generic_visit(node)
         if isinstance(node.op, ast.Not) and isinstance(node.operand, ast.Compare) and len(node.operand.ops) == 1 and type(node.operand.ops[0]) in _NEG:
